@@ -1250,8 +1250,11 @@ func (a *Allocator) CreatePool(createInfo PoolCreateInfo) (*Pool, common.VkResul
 		return nil, core1_0.VKErrorUnknown, errors.Errorf("provided MinBlockCount %d was greater than provided MaxBlockCount %d", createInfo.MinBlockCount, createInfo.MaxBlockCount)
 	}
 
+	if createInfo.MemoryTypeIndex < 0 || createInfo.MemoryTypeIndex >= a.deviceMemory.MemoryTypeCount() {
+		return nil, core1_0.VKErrorFeatureNotPresent, core1_0.VKErrorFeatureNotPresent.ToError()
+	}
 	memTypeBits := uint32(1 << createInfo.MemoryTypeIndex)
-	if createInfo.MemoryTypeIndex >= a.deviceMemory.MemoryTypeCount() || memTypeBits&a.globalMemoryTypeBits == 0 {
+	if memTypeBits&a.globalMemoryTypeBits == 0 {
 		return nil, core1_0.VKErrorFeatureNotPresent, core1_0.VKErrorFeatureNotPresent.ToError()
 	}
 
